@@ -9,7 +9,8 @@ Driver for C32.  Line protocol (see harness/cmd/c32/main.go):
   crash   <mode> <cache> <pb> <kinds> <pre> <k> <j> <next>  -> files of the target after the kill | what the next build does
   crash2  <mode> <cache> <pb> <kinds> <pre> <k1> <j1> <k2> <j2> <next>  -> the same after a second, plain build was killed too
   fbtrunc <kinds> <len>                                      -> next build after a fallback record was cut to <len> bytes
-  wf      <old|none> <new> <mode> <chunk> <n> <how>          -> destination / temporary after fs.WriteFile died
+  wf      <old|none> <new> <mode> <chunk> <n> <how>          -> destination / temporary (content:mode) after fs.WriteFile died;
+             how = p|k (the reader dies after n bytes: panic | SIGKILL) or <close|rename|renamed>-<p|k> (crash point of WriteFile)
   gob     <hex>                                              -> number of strict prefixes of the gob that decode (claim: 0)
   tkill   ...                                                -> what the theorems say about a same-tree recovery
 
@@ -203,21 +204,33 @@ def parseNat? (s : String) : Option Nat := s.toNat?
 
 /-! fs.WriteFile -/
 open PlzVerif.WriteFile in
-def stepWf (old new : Option (List UInt8)) (mode chunk n : Nat) : String :=
+def stepWf (old new : Option (List UInt8)) (mode chunk n : Nat) (how : String) : String :=
   match new with
   | none => "bad-op"
   | some data =>
     if chunk = 0 then "bad-op" else
     let d0 : Dir := fun x => if x = "dest" then old.map (fun o => ⟨o, 0o644⟩) else none
-    -- the reader hands out `chunk` bytes at a time and dies when asked for more than `n` bytes in total
-    let delivered := data.take n
+    let point := (how.splitOn "-").headD ""
+    let atPoint := point = "close" || point = "rename" || point = "renamed"
+    -- the reader hands out `chunk` bytes at a time and dies when asked for more than `n` bytes in total;
+    -- for a crash at a named point of WriteFile itself it delivers everything
+    let delivered := if atPoint then data else data.take n
     let rec pieces (fuel : Nat) (l : List UInt8) : List (List UInt8) :=
       match fuel with
       | 0 => []
       | fuel + 1 => if l.isEmpty then [] else l.take chunk :: pieces fuel (l.drop chunk)
     let chunks := pieces (delivered.length + 1) delivered
-    let all := opsWith Generated.C32.writeFileCalls "tmp" "dest" chunks mode
-    let ops := if n > data.length then all else [Op.mkdirAll, Op.createTemp "tmp"] ++ chunks.map (Op.write "tmp")
+    -- Chmod is applied to the path the extractor found it applied to
+    let ct := if Generated.C32.writeFileChmodArgs.head? == some "dest" then "dest" else "tmp"
+    let all := opsWith Generated.C32.writeFileCalls ct "tmp" "dest" chunks mode
+    let isClose : Op → Bool := fun o => match o with | .close => true | _ => false
+    let isRename : Op → Bool := fun o => match o with | .rename _ _ => true | _ => false
+    let ops :=
+      if point = "close" then all.takeWhile (fun o => !isClose o)
+      else if point = "rename" then all.takeWhile (fun o => !isRename o)
+      else if point = "renamed" then all.takeWhile (fun o => !isRename o) ++ all.filter isRename
+      else if n > data.length then all
+      else [Op.mkdirAll, Op.createTemp "tmp"] ++ chunks.map (Op.write "tmp")
     let d := run d0 ops
     let sh := fun (f : Option File) => match f with
       | none => "none"
@@ -253,9 +266,11 @@ def step (line : String) : String :=
       let fs' : T := { fs with out := fun i => if i = 0 then { fs.out 0 with fb := some (.trunc len) } else fs.out i }
       showNext (params s true) fs'
     | _, _ => "bad-op"
-  | ["wf", old, new, mode, chunk, n, _how] =>
+  | ["wf", old, new, mode, chunk, n, how] =>
     match optHex old, optHex new, parseNat? mode, parseNat? chunk, parseNat? n with
-    | some o, some nw, some m, some c, some n => stepWf o nw m c n
+    | some o, some nw, some m, some c, some n =>
+      if ["p", "k", "close-p", "close-k", "rename-p", "rename-k", "renamed-p", "renamed-k"].contains how then stepWf o nw m c n how
+      else "bad-op"
     | _, _, _, _, _ => "bad-op"
   | ["gob", h] =>
     match bytesOfHex h with
